@@ -1471,15 +1471,6 @@ impl PeerConnection {
             }
         }
 
-        // Update next_mid to avoid collisions with remote MIDs
-        for section in &desc.media_sections {
-            if let Ok(mid_val) = section.mid.parse::<u16>() {
-                self.inner
-                    .next_mid
-                    .fetch_max(mid_val.saturating_add(1), Ordering::SeqCst);
-            }
-        }
-
         // The state check happens here; the transition itself is made only once the
         // description has been applied, so a call that fails further down (transport
         // setup) does not leave the connection in the next signaling state.
@@ -1518,6 +1509,15 @@ impl PeerConnection {
                 SdpType::Rollback => {
                     return Err(RtcError::NotImplemented("rollback"));
                 }
+            }
+        }
+
+        // Update next_mid to avoid collisions with remote MIDs
+        for section in &desc.media_sections {
+            if let Ok(mid_val) = section.mid.parse::<u16>() {
+                self.inner
+                    .next_mid
+                    .fetch_max(mid_val.saturating_add(1), Ordering::SeqCst);
             }
         }
 
